@@ -353,9 +353,9 @@ func cases(tier string, seed int64) []eng.Case {
 	r := eng.NewRand("c12-cases", seed)
 	var out []eng.Case
 	thorough := tier == "thorough"
-	nb, nc := 56, 56
+	nb, nc := 168, 168
 	if thorough {
-		nb, nc = 230, 230
+		nb, nc = 700, 700
 	}
 	mk := func(cfg paramCfg) {
 		id := fmt.Sprintf("%s/%s/logN%d/q%v/p%v/t%d/%d", cfg.Scheme, cfg.Ring, cfg.LogN, cfg.QBits, cfg.PBits, cfg.T, cfg.Idx)
@@ -384,12 +384,12 @@ func cases(tier string, seed int64) []eng.Case {
 		if r.N(5) == 0 {
 			scheme = "bfv"
 		}
-		np := 6
+		np := 10
 		if logN >= 9 {
-			np = 4
+			np = 7
 		}
 		if thorough {
-			np += 3
+			np += 4
 		}
 		mk(paramCfg{Scheme: scheme, Ring: "std", LogN: logN, QBits: sh.q, PBits: sh.p, Q: q, P: p, T: t, NProg: np, Idx: i})
 	}
@@ -409,12 +409,12 @@ func cases(tier string, seed int64) []eng.Case {
 		if q == nil {
 			continue
 		}
-		np := 6
+		np := 10
 		if logN >= 9 {
-			np = 4
+			np = 7
 		}
 		if thorough {
-			np += 3
+			np += 4
 		}
 		mk(paramCfg{Scheme: "ckks", Ring: ringT, LogN: logN, QBits: sh.q, PBits: sh.p, Q: q, P: p, LogSc: eng.Pick(r, 45, 40, 50), NProg: np, Idx: i})
 	}
